@@ -40,6 +40,7 @@ def frame_a():
         "f": ["b", "a", "c", "a", "b", "c", "c", "a", "b", "b", "a", "c"],
         "g": ["g1", "g2", "g1", "g3", "g2", "g3", "g1", "g2", "g3", "g1", "g2", "g3"],
         "xc": [-3.0, -2.0, -1.0, 0.0, 1.0, 2.0, 3.0, -1.5, 1.5, -0.5, 0.5, 0.0],  # mean exactly zero
+        "d": [0.0, 1.0] * 6,  # a two-point dose: fewer distinct points than poly(d, 2) needs
     })
 
 
@@ -51,6 +52,7 @@ def frame_b():
         "f": ["d", "a", "b", "d", "a", "b", "b", "d", "a"],
         "g": ["g2", "g4", "g2", "g4", "g5", "g5", "g2", "g4", "g5"],
         "xc": [4.0, -4.0, 2.0, -2.0, 1.0, -1.0, 0.0, 0.5, -0.5],
+        "d": [2.0, 5.0, 2.0, 5.0, 5.0, 2.0, 2.0, 5.0, 2.0],
     })
 
 
@@ -68,7 +70,8 @@ SPECS = [
     ("y ~ scale(wv) + x", "a"),  # 'wv' is a float array of the caller, not a column
     ("y ~ fn(x) + f", "a", "envA"),  # built through one caller-held Environment object with extra_namespace A ...
     ("y ~ fn(x) + f", "a", "envB"),  # ... and B
-    ("y ~ center(x) + f:g:center(x)", "a"),  # full rank needs a helper term (g:center(x)) that holds a stateful transform
+    ("y ~ center(x) + f:g:center(x)", "a"),
+    ("y ~ poly(d, 2) + x", "a"),  # degenerate training data for the transform (two distinct points, degree 2)  # full rank needs a helper term (g:center(x)) that holds a stateful transform
 ]
 
 
@@ -105,10 +108,12 @@ def eval_frame0(which, j):
         nd["x"] = nd["x"] * 3 + 10
         nd["z"] = nd["z"] + 2
         nd["xc"] = nd["xc"] * 2 + 5
+        nd["d"] = nd["d"] * 1.5 + np.arange(len(nd))
         return nd
     nd = df.iloc[[2, 4, 6]].reset_index(drop=True).copy()
     nd["f"] = [nd["f"][0], "zz", nd["f"][2]]
     nd["g"] = ["gN", nd["g"][1], nd["g"][2]]
+    nd["d"] = [3.0, 7.0, 4.0]
     return nd
 
 
@@ -144,6 +149,17 @@ def obs_result(out, exc, warns):
          "slices": {k: [v.start, v.stop] for k, v in out.slices.items()}, "warn": len(warns)}
     if hasattr(out, "factors_with_new_levels"):
         o["fwnl"] = list(out.factors_with_new_levels)
+    try:  # the result is read the way a user reads it: printed, and (common part) as a data frame
+        o["str"] = str(out)
+        o["repr"] = repr(out) == o["str"] or repr(out)
+    except Exception as e:
+        o["str"] = "raises " + type(e).__name__
+    if hasattr(out, "as_dataframe"):
+        try:
+            d = out.as_dataframe()
+            o["df"] = [list(d.columns), dig(d.to_numpy()), dig(d.to_numpy()) == o["m"]]
+        except Exception as e:
+            o["df"] = "raises " + type(e).__name__
     return o
 
 
